@@ -446,6 +446,7 @@ def run_obligation(prop, hname, fn, cfg, seed=0, timeout_ms=20000, max_paths=200
             try:
                 del stx.CALLS[:]
                 stx.TERMS.clear()
+                stx.AUTO_MONOTONE = False
                 stubs.uninstall_all()
                 stubs.install_rng()
                 with shim.patched(extra_bindings(h) if extra_bindings else None):
